@@ -68,10 +68,12 @@ def fingerprint(g, extra=(), textcanon=None):
     return fp
 
 
-def guarded_query(ctx, g, name, fn, obj, seed, extra=(), textcanon=None):
-    """returns list of (key, detail) violations (for C10)."""
+def guarded_query(ctx, g, name, fn, obj, seed, extra=(), textcanon=None, f0=None):
+    """returns list of (key, detail) violations (for C10).  f0: fingerprint already taken for
+    exactly this (g, extra) after the previous call (saves one observation)."""
     env = Env(g, seed)
-    f0 = fingerprint(g, extra, textcanon)
+    if f0 is None:
+        f0 = fingerprint(g, extra, textcanon)
     env.reset()
     r1 = call(ctx, name, fn, obj, env)
     f1 = fingerprint(g, extra, textcanon)
